@@ -182,12 +182,16 @@ def _run_chunk(args):
     return res, rc
 
 
-def run_cases(exe, cases, timeout=600, procs=NPROC):
+def run_cases(exe, cases, timeout=600, procs=NPROC, per_case=False):
     """cases: list of list-of-op-lines. Returns list (per case) of list (per op) of output-line lists
-    (None where the process died before answering)."""
+    (None where the process died before answering). per_case: one process per case (a slow case then
+    costs only itself; `timeout` is per case)."""
     indexed = list(enumerate(cases))
     nchunks = max(1, min(procs, len(indexed)))
     chunks = [indexed[i::nchunks] for i in range(nchunks)]
+    if per_case:
+        chunks = [[c] for c in indexed]
+        nchunks = max(1, min(procs, len(chunks)))
     results = {}
     crashed = []
     with cf.ThreadPoolExecutor(max_workers=nchunks) as ex:
